@@ -1,0 +1,8 @@
+//go:build verif
+
+package verifexport
+
+import "go.minekube.com/gate/pkg/internal/mathutil"
+
+// FloorDiv is mathutil.FloorDiv.
+func FloorDiv(a, b int) int { return mathutil.FloorDiv(a, b) }
